@@ -1,191 +1,14 @@
-import Sigc.SlotGLemmasWF
+import Sigc.SlotGLemmasAlloc
 /-!
   `WF` for the operations that create a representation: `mkS`, `cpS`, `mvS` (and the facts about `allocBind`
   the assignment operators need).
 -/
 namespace Sigc.SlotG
 
-/-! ### facts about `allocBind` -/
-
-theorem bindFun_frame (r : Nat) (f : Fun) (s : State) :
-    (bindFun r f s).slots = s.slots ∧ (bindFun r f s).conns = s.conns ∧
-    (bindFun r f s).nextRep = s.nextRep ∧ (bindFun r f s).err = s.err := by
-  cases f with
-  | fn fid => exact ⟨rfl, rfl, rfl, rfl⟩
-  | mem fid t => exact ⟨slots_trkAdd _ _ _, conns_trkAdd _ _ _, nextRep_trkAdd _ _ _, err_trkAdd _ _ _⟩
-  | sref fid v =>
-    exact ⟨slots_setParentIfNone _ _ _, conns_setParentIfNone _ _ _, nextRep_setParentIfNone _ _ _,
-      err_setParentIfNone _ _ _⟩
-  | own fid v t =>
-    cases t with
-    | none => exact ⟨rfl, rfl, rfl, rfl⟩
-    | some t => exact ⟨slots_trkAdd _ _ _, conns_trkAdd _ _ _, nextRep_trkAdd _ _ _, err_trkAdd _ _ _⟩
-
-@[slotg_simp] theorem slots_allocBind (c : Bool) (f : Fun) (s : State) : (allocBind c f s).slots = s.slots := by
-  unfold allocBind; rw [(bindFun_frame _ _ _).1]; rfl
-@[slotg_simp] theorem conns_allocBind (c : Bool) (f : Fun) (s : State) : (allocBind c f s).conns = s.conns := by
-  unfold allocBind; rw [(bindFun_frame _ _ _).2.1]; rfl
-@[slotg_simp] theorem nextRep_allocBind (c : Bool) (f : Fun) (s : State) :
-    (allocBind c f s).nextRep = s.nextRep + 1 := by
-  unfold allocBind; rw [(bindFun_frame _ _ _).2.2.1]; rfl
-@[slotg_simp] theorem err_allocBind (c : Bool) (f : Fun) (s : State) : (allocBind c f s).err = s.err := by
-  unfold allocBind; rw [(bindFun_frame _ _ _).2.2.2]; rfl
-@[slotg_simp] theorem repOf_allocBind (c : Bool) (f : Fun) (s : State) (v : Nat) :
-    repOf (allocBind c f s) v = repOf s v := by
-  simp only [repOf, slots_allocBind]
-
-theorem reps_allocBind_self {s : State} (hI : Inv s) (c : Bool) (f : Fun) :
-    (allocBind c f s).reps s.nextRep = some ⟨c, none, some f, []⟩ := by
-  unfold allocBind
-  cases f with
-  | fn fid => simp [bindFun, reps_allocRep]
-  | mem fid t => simp [bindFun, reps_trkAdd, reps_allocRep]
-  | sref fid v =>
-    simp only [bindFun, reps_setParentIfNone, repOf_allocRep, reps_allocRep, if_true]
-    rw [if_neg (orphan_next hI v)]
-  | own fid v t => cases t <;> simp [bindFun, reps_trkAdd, reps_allocRep]
-
-theorem reps_allocBind_other (c : Bool) (f : Fun) (s : State) (x : Nat) (hx : x ≠ s.nextRep) :
-    (allocBind c f s).reps x = s.reps x ∨
-      ∃ X fid v, s.reps x = some X ∧ f = .sref fid v ∧ repOf s v = some x ∧
-        (allocBind c f s).reps x = some (setPar s.nextRep X) := by
-  unfold allocBind
-  cases f with
-  | fn fid => left; simp [bindFun, reps_allocRep, hx]
-  | mem fid t => left; simp [bindFun, reps_trkAdd, reps_allocRep, hx]
-  | sref fid v =>
-    simp only [bindFun, reps_setParentIfNone, repOf_allocRep, reps_allocRep, hx, if_false]
-    by_cases hv : repOf s v = some x
-    · cases hX : s.reps x with
-      | none => left; simp [hv]
-      | some X => right; exact ⟨X, fid, v, rfl, rfl, hv, by simp [hv]⟩
-    · left; simp [hv]
-  | own fid v t => cases t <;> (left; simp [bindFun, reps_trkAdd, reps_allocRep, hx])
-
-/-- an old representation after `allocBind`: unchanged except that it may have got the new one as parent -/
-theorem allocBind_old (c : Bool) (f : Fun) {s : State} {x : Nat} {X : Rep} (hX : s.reps x = some X)
-    (hx : x ≠ s.nextRep) :
-    ∃ X', (allocBind c f s).reps x = some X' ∧ X'.fn = X.fn ∧ X'.cbs = X.cbs ∧ X'.call = X.call ∧
-      (X'.parent = X.parent ∨ (X.parent = none ∧ X'.parent = some s.nextRep)) := by
-  rcases reps_allocBind_other c f s x hx with h | ⟨X0, fid, v, hX0, -, -, h⟩
-  · exact ⟨X, by rw [h]; exact hX, rfl, rfl, rfl, .inl rfl⟩
-  · rw [hX] at hX0; cases hX0
-    refine ⟨_, h, setPar_fn _ _, setPar_cbs _ _, setPar_call _ _, ?_⟩
-    rw [setPar_parent]; cases hp : X.parent <;> simp
-
-theorem allocBind_alive (c : Bool) (f : Fun) {s : State} {x : Nat} {X' : Rep}
-    (hX' : (allocBind c f s).reps x = some X') (hx : x ≠ s.nextRep) : ∃ X, s.reps x = some X := by
-  rcases reps_allocBind_other c f s x hx with h | ⟨X0, -, -, hX0, -, -, -⟩
-  · exact ⟨X', by rw [← h]; exact hX'⟩
-  · exact ⟨X0, hX0⟩
-
-theorem idle_allocBind {s : State} (hi : Idle s) (c : Bool) (f : Fun) : Idle (allocBind c f s) := by
-  unfold allocBind
-  have key : ∀ t, Idle (trkAdd t s.nextRep (allocRep ⟨c, none, some f, []⟩ s)) := by
-    intro t t' T hT
-    rw [trks_trkAdd, trks_allocRep] at hT
-    by_cases htt : t' = t
-    · subst htt
-      simp only [if_true, Option.map_eq_some_iff] at hT
-      obtain ⟨T0, hT0, rfl⟩ := hT
-      obtain ⟨h1, h2⟩ := hi t' T0 hT0
-      refine ⟨by rw [addEntry_clearing]; exact h1, ?_⟩
-      intro x hx
-      rcases (mem_addEntry _ _ _ _).mp hx with h | ⟨-, -, h⟩
-      · exact h2 x h
-      · cases h
-    · simp only [htt, if_false] at hT; exact hi t' T hT
-  cases f with
-  | fn fid => exact hi
-  | mem fid t => exact key t
-  | sref fid v =>
-    intro t T hT
-    simp only [bindFun, trks_setParentIfNone, trks_allocRep] at hT
-    exact hi t T hT
-  | own fid v t =>
-    cases t with
-    | none => exact hi
-    | some t => exact key t
-
-/-- everything the callers need about the state in which the new representation exists but is not stored yet -/
-theorem allocBind_pre {s : State} (hw : WF s) (c : Bool) {f : Fun} (hf : FunOk s f) :
-    Inv (allocBind c f s) ∧ Idle (allocBind c f s) ∧
-    (∀ r R, (allocBind c f s).reps r = some R → (∃ w, repOf (allocBind c f s) w = some r) ∨ r = s.nextRep) ∧
-    (allocBind c f s).reps s.nextRep = some ⟨c, none, some f, []⟩ ∧
-    (∀ w, repOf (allocBind c f s) w ≠ some s.nextRep) := by
-  refine ⟨inv_allocBind hw c hf, idle_allocBind hw.idle c f, ?_, reps_allocBind_self hw.inv c f, ?_⟩
-  · intro r R hR
-    by_cases hrn : r = s.nextRep
-    · exact .inr hrn
-    · obtain ⟨X, hX⟩ := allocBind_alive c f hR hrn
-      obtain ⟨w, hw'⟩ := hw.held r X hX
-      exact .inl ⟨w, by rw [repOf_allocBind]; exact hw'⟩
-  · intro w; rw [repOf_allocBind]; exact orphan_next hw.inv w
-
-/-- a functor that is stored in a representation may be instantiated again (`clone()`) -/
-theorem funOk_of_inv {s : State} (h : Inv s) {r : Nat} {R : Rep} {f : Fun} (hR : s.reps r = some R)
-    (hf : R.fn = some f) : FunOk s f := by
-  refine ⟨?_, ?_, ?_⟩
-  · intro t ht
-    obtain ⟨T, hT, -⟩ := h.trkReg r R f t hR hf ht
-    exact ⟨T, hT⟩
-  · intro v hv
-    cases f <;> simp [Fun.ref] at hv
-    subst hv
-    exact h.refOk r R _ _ hR hf
-  · intro v hv
-    cases f <;> simp [Fun.owns] at hv
-    subst hv
-    rename_i fid v t
-    refine ⟨h.ownOk r R fid v t hR hf, ?_⟩
-    rintro ⟨x, X, fid', hX, hfx⟩
-    exact (h.refOk x X fid' v hX hfx).2 ⟨r, R, fid, t, hR, hf⟩
-
-/-- `specCheck` passed: the functor of the spec may be instantiated -/
-theorem funOk_of_spec {s : State} (h : Inv s) {f : Fun} (hc : specCheck s f = none) : FunOk s f := by
-  cases f with
-  | fn fid => exact ⟨by simp [Fun.trk], by simp [Fun.ref], by simp [Fun.owns]⟩
-  | mem fid t =>
-    simp only [specCheck, deadT] at hc
-    refine ⟨?_, by simp [Fun.ref], by simp [Fun.owns]⟩
-    intro t' ht'; simp [Fun.trk] at ht'; subst ht'
-    cases hT : s.trks t with
-    | none => simp [hT] at hc
-    | some T => exact ⟨T, by first | rfl | exact hT⟩
-  | sref fid v =>
-    simp only [specCheck, deadS] at hc
-    refine ⟨by simp [Fun.trk], ?_, by simp [Fun.owns]⟩
-    intro v' hv'; simp [Fun.ref] at hv'; subst hv'
-    cases hV : s.slots v with
-    | none => simp [hV] at hc
-    | some V =>
-      refine ⟨⟨V, by first | rfl | exact hV⟩, ?_⟩
-      intro ho
-      rw [(ownedBy_iff h.repBound v).mpr ho] at hc
-      simp [hV] at hc
-  | own fid v t =>
-    simp only [specCheck, deadS, deadT] at hc
-    cases hV : s.slots v with
-    | none => simp [hV] at hc
-    | some V =>
-      simp only [hV, Option.isNone_some, Bool.false_eq_true, if_false] at hc
-      refine ⟨?_, by simp [Fun.ref], ?_⟩
-      · intro t' ht'
-        simp [Fun.trk] at ht'; subst ht'
-        cases hT : s.trks t' with
-        | none => simp [hT] at hc
-        | some T => exact ⟨T, by first | rfl | exact hT⟩
-      · intro v' hv'; simp [Fun.owns] at hv'; subst hv'
-        refine ⟨⟨V, by first | rfl | exact hV⟩, ?_⟩
-        intro hp
-        rw [(pinned_iff h.repBound v).mpr hp] at hc
-        split at hc
-        · by_cases hh : s.trks ‹Nat› = none <;> simp [hh] at hc
-        · simp at hc
-
 /-! ### the state in which a new representation exists but is not stored yet -/
 
-/-- `sN` is `s` plus the new representation `s.nextRep` (record `N`), bound but not stored anywhere -/
+/-- `sN` is `s` plus the new representation `s.nextRep` (record `N`), bound but not stored anywhere (and, for a
+    functor that binds a slot by value, the representations of the bound copies, stored in anonymous variables) -/
 structure Fresh (s sN : State) (N : Rep) : Prop where
   inv : Inv sN
   idle : Idle sN
@@ -194,71 +17,32 @@ structure Fresh (s sN : State) (N : Rep) : Prop where
   par : N.parent = none
   cbs : N.cbs = []
   orph : ∀ w, repOf sN w ≠ some s.nextRep
-  repOf : ∀ w, repOf sN w = repOf s w
-  aliveS : ∀ w, (sN.slots w).isSome = (s.slots w).isSome
-  old : ∀ x X, s.reps x = some X → ∃ X', sN.reps x = some X' ∧ X'.fn = X.fn ∧ X'.cbs = X.cbs ∧
-    X'.call = X.call ∧ (X'.parent = X.parent ∨ (X.parent = none ∧ X'.parent = some s.nextRep))
-  alive : ∀ x X', sN.reps x = some X' → x ≠ s.nextRep → ∃ X, s.reps x = some X
+  aliveS : ∀ w, w < anonBase → (sN.slots w).isSome = (s.slots w).isSome
 
-theorem fresh_allocBind {s : State} (hw : WF s) (c : Bool) {f : Fun} (hf : FunOk s f) :
-    Fresh s (allocBind c f s) ⟨c, none, some f, []⟩ := by
-  obtain ⟨h1, h2, h3, h4, h5⟩ := allocBind_pre hw c hf
-  refine ⟨h1, h2, h3, h4, rfl, rfl, h5, repOf_allocBind c f s, by intro w; rw [slots_allocBind], ?_, ?_⟩
-  · intro x X hX
-    exact allocBind_old c f hX (Nat.ne_of_lt (hw.inv.repBound x X hX))
-  · intro x X' hX' hx
-    exact allocBind_alive c f hX' hx
+theorem fresh_of_ext {s sN : State} (hw : WF s) (E : Ext s sN) : ∃ N, Fresh s sN N := by
+  obtain ⟨N, hN, hp, hc⟩ := E.self
+  refine ⟨N, E.inv, E.idle, E.heldAll hw, hN, hp, hc, E.orph hw.inv, ?_⟩
+  intro w hlt
+  rw [E.slots w (by omega)]
 
-theorem fresh_allocNoFn {s : State} (hw : WF s) (c : Bool) :
-    Fresh s (allocRep ⟨c, none, none, []⟩ s) ⟨c, none, none, []⟩ := by
-  have h := hw.inv
-  have horph := orphan_next h
-  refine ⟨by inv_auto h, ?_, ?_, by simp [reps_allocRep], rfl, rfl, ?_, fun _ => rfl, fun _ => rfl, ?_, ?_⟩
-  · have := hw.idle; unfold Idle at *; st_simp; exact this
-  · intro r R hR
-    rw [reps_allocRep] at hR
-    by_cases hrn : r = s.nextRep
-    · exact .inr hrn
-    · rw [if_neg hrn] at hR
-      obtain ⟨w, hw'⟩ := hw.held r R hR
-      exact .inl ⟨w, hw'⟩
-  · intro w; exact horph w
-  · intro x X hX
-    have hx : x ≠ s.nextRep := Nat.ne_of_lt (h.repBound x X hX)
-    exact ⟨X, by rw [reps_allocRep, if_neg hx]; exact hX, rfl, rfl, rfl, .inl rfl⟩
-  · intro x X' hX' hx
-    rw [reps_allocRep, if_neg hx] at hX'
-    exact ⟨X', hX'⟩
+theorem fresh_cloneRep {s : State} (hw : WF s) (r : Nat) : ∃ N, Fresh s (cloneRep r s) N :=
+  fresh_of_ext hw (ext_cloneRep hw.inv hw.idle r)
 
-theorem cloneRep_eq {s : State} {r : Nat} {R : Rep} (hR : s.reps r = some R) : cloneRep r s =
-    match R.fn with
-    | none => allocRep ⟨R.call, none, none, []⟩ s
-    | some f => allocBind R.call f s := by
-  unfold cloneRep allocBind
-  simp only [hR]
-  cases R.fn <;> rfl
-
-theorem fresh_cloneRep {s : State} (hw : WF s) {r : Nat} {R : Rep} (hR : s.reps r = some R) :
-    ∃ N, N.fn = R.fn ∧ Fresh s (cloneRep r s) N := by
-  rw [cloneRep_eq hR]
-  cases hf : R.fn with
-  | none => exact ⟨_, rfl, fresh_allocNoFn hw R.call⟩
-  | some f => exact ⟨_, rfl, fresh_allocBind hw R.call (funOk_of_inv hw.inv hR hf)⟩
+theorem fresh_newRep {s : State} (hw : WF s) {f : Fun} (hc : specCheck s f = none)
+    (hnm : ∀ v, v ∈ f.names.1 → v < anonBase) : ∃ N, Fresh s (newRep f s) N :=
+  fresh_of_ext hw (ext_newRep hw.inv hw.idle hc hnm)
 
 theorem fresh_modSlot_blocked {s sN : State} {N : Rep} (h : Fresh s sN N) (d : Nat) (b : Bool) :
     Fresh s (sN.modSlot d fun D => { D with blocked := b }) N := by
   have hi := h.inv
-  refine ⟨by inv_auto hi, ?_, ?_, ?_, h.par, h.cbs, ?_, ?_, ?_, ?_, ?_⟩
+  refine ⟨by inv_auto hi, ?_, ?_, ?_, h.par, h.cbs, ?_, ?_⟩
   · have := h.idle; unfold Idle at *; st_simp; exact this
   · have := h.held; st_simp; exact this
   · have := h.self; st_simp; exact this
   · have := h.orph; st_simp; exact this
-  · have := h.repOf; st_simp; exact this
-  · intro w
-    rw [slots_modSlot, ← h.aliveS w]
+  · intro w hlt
+    rw [slots_modSlot, ← h.aliveS w hlt]
     by_cases hw : w = d <;> simp [hw]
-  · have := h.old; st_simp; exact this
-  · have := h.alive; st_simp; exact this
 
 /-- a state whose only unstored representation carries no registration satisfies the strong invariant -/
 theorem invS_of_held_except {s : State} (hI : Inv s) {n : Nat} {N : Rep}
@@ -287,12 +71,14 @@ theorem invS_of_held_except {s : State} (hI : Inv s) {n : Nat} {N : Rep}
   trkNodup := hI.trkNodup
   refOk := hI.refOk
   ownOk := hI.ownOk
+  nestOk := hI.nestOk
+  anonBound := hI.anonBound
   repBound := hI.repBound
 
 theorem wf_adoptSet {s : State} (hI : Inv s) (hidle : Idle s) {v n : Nat} {N : Rep} (b : Bool)
     (hheld : ∀ r R, s.reps r = some R → (∃ w, repOf s w = some r) ∨ r = n)
     (hn : s.reps n = some N) (hnp : N.parent = none) (hnc : N.cbs = []) (horph : ∀ w, repOf s w ≠ some n)
-    (hv : s.slots v = none) : WF (s.setSlot v (some ⟨some n, b⟩)) := by
+    (hv : s.slots v = none) (hnm : v < anonBase) : WF (s.setSlot v (some ⟨some n, b⟩)) := by
   have h := invS_of_held_except hI hheld hn hnc
   refine ⟨InvS.inv (by invs_auto h with [repOf_eq]), ?_, ?_⟩
   · unfold Idle at *; st_simp; exact hidle
@@ -302,9 +88,9 @@ theorem wf_adoptSet {s : State} (hI : Inv s) (hidle : Idle s) {v n : Nat} {N : R
     · exact ⟨v, by simp⟩
 
 theorem wf_adopt_fresh {s sN : State} {N : Rep} (h : Fresh s sN N) {v : Nat} (b : Bool)
-    (hv : s.slots v = none) : WF (sN.setSlot v (some ⟨some s.nextRep, b⟩)) := by
-  refine wf_adoptSet h.inv h.idle b h.held h.self h.par h.cbs h.orph ?_
-  have := h.aliveS v
+    (hv : s.slots v = none) (hnm : v < anonBase) : WF (sN.setSlot v (some ⟨some s.nextRep, b⟩)) := by
+  refine wf_adoptSet h.inv h.idle b h.held h.self h.par h.cbs h.orph ?_ hnm
+  have := h.aliveS v hnm
   rw [hv] at this
   cases hx : sN.slots v with
   | none => rfl
@@ -313,10 +99,13 @@ theorem wf_adopt_fresh {s sN : State} {N : Rep} (h : Fresh s sN N) {v : Nat} (b 
 /-! ### `mkS`, `cpS`, `mvS` -/
 
 theorem wf_mkS {s : State} (hw : WF s) {v : Nat} {f : Fun} (hv : s.slots v = none)
-    (hc : specCheck s f = none) : WF (apply (.mkS v f) s) :=
-  wf_adopt_fresh (fresh_allocBind hw true (funOk_of_spec hw.inv hc)) false hv
+    (hc : specCheck s f = none) (hnm : v < anonBase) (hnf : ∀ v, v ∈ f.names.1 → v < anonBase) :
+    WF (apply (.mkS v f) s) := by
+  obtain ⟨N, hF⟩ := fresh_newRep hw hc hnf
+  exact wf_adopt_fresh hF false hv hnm
 
-theorem wf_cpS {s : State} (hw : WF s) {j i : Nat} (hj : s.slots j = none) : WF (apply (.cpS j i) s) := by
+theorem wf_cpS {s : State} (hw : WF s) {j i : Nat} (hj : s.slots j = none) (hnm : j < anonBase) :
+    WF (apply (.cpS j i) s) := by
   simp only [apply]
   cases hi : s.slots i with
   | none => exact hw
@@ -334,8 +123,7 @@ theorem wf_cpS {s : State} (hw : WF s) {j i : Nat} (hj : s.slots j = none) : WF 
       simp only []
       split
       · exact hnone _
-      · obtain ⟨R, hR⟩ := hw.inv.repAlive i r (repOf_eq.mpr ⟨X, hi, hr⟩)
-        obtain ⟨N, -, hF⟩ := fresh_cloneRep hw hR
-        exact wf_adopt_fresh hF _ hj
+      · obtain ⟨N, hF⟩ := fresh_cloneRep hw r
+        exact wf_adopt_fresh hF _ hj hnm
 
 end Sigc.SlotG
